@@ -148,6 +148,11 @@ def parseOpNamed (name : String) (l : Line) : Option Op :=
   | "unchecked_push_rv" => x.map (Op.unchecked 1)
   | "unchecked_emplace" => x.map (Op.unchecked 2)
   | "dump" => some .dump
+  -- api_member only: the overload exists as a function of its own (signature probe)
+  | "try_push_cref_sig" => x.map (Op.tryPush 0)
+  | "try_push_rv_sig" => x.map (Op.tryPush 1)
+  | "unchecked_push_cref_sig" => x.map (Op.unchecked 0)
+  | "unchecked_push_rv_sig" => x.map (Op.unchecked 1)
   -- the argument is element `i` of the object itself
   | "push_alias" => i.map (Op.pushA 0)
   | "emplace_back_alias" => i.map (Op.pushA 2)
